@@ -605,7 +605,7 @@ def check(F, R, tier):
 LEVEL_TEXT = ("Decides at the type level that no type placed in shared memory (every ZeroCopySend / RelocatableContainer implementor, including "
               "the ~50 manual `unsafe impl`s the compiler does not check) has an address-carrying leaf, that no pointer-derived integer is stored into "
               "such a type except through audited exception rows, that relocatable pointers are initialised from the passed allocator and store a "
-              "self-relative difference, and that queues carry offsets. 'Same behaviour after relocation' as a run is not decided.")
+              "self-relative difference, and that queues carry offsets. The shm allocators call only computing operations of the wrapped process-local allocator. 'Same behaviour after relocation' as a run is not decided.")
 LEVEL_NOTE = ("Trusted: rustc type information; the allowed-leaf table FOREIGN and the EXCEPTIONS rows (each with a reason; allocators keep a creator-absolute "
               "address by design and are observed through segment-relative offsets; process-shared POSIX objects are position independent by contract).")
 TECHNIQUE = "static analysis: type walk over trait implementors with symbolic generics, intraprocedural taint from pointer-to-integer casts, sibling protocol check"
